@@ -242,17 +242,35 @@ theorem slot_len {α β : Type} (f : β → Option α) (vs : List β) (r : Optio
     vs.length ≤ 1 := by
   rcases (slot_none_some_iff f vs r).mp h with ⟨rfl, _⟩ | ⟨v, x, rfl, _, _⟩ <;> simp
 
-theorem effect_must (v : Json) (e : Effect) (h : unitEnum effectOfName v = some e) :
-    ((effectValueViol v).isNone || enumObjectForm v) = true := by
-  cases hq : enumObjectForm v with
-  | true => simp
-  | false => simp [grammar_of_effect v e h hq]
+theorem effect_must (v : Json) (e : Effect) (h : nameEnum effectOfName v = some e) :
+    (effectValueViol v).isNone = true := by
+  simp [grammar_of_effect v e h]
 
 theorem version_must (v : Json) (x : Option Version) (h : optVersion v = some x) :
-    ((versionValueViol v).isNone || enumObjectForm v) = true := by
-  cases hq : enumObjectForm v with
-  | true => simp
-  | false => simp [grammar_of_optVersion v x h hq]
+    (versionValueViol v).isNone = true := by
+  simp [grammar_of_optVersion v x h]
+
+theorem enumObjectForm_version (v : Json) (h : enumObjectForm v = true) :
+    versionValueViol v = some .enumObjectForm := by
+  cases v with
+  | obj ms =>
+    rcases ms with _ | ⟨⟨k, x⟩, _ | _⟩
+    · simp [enumObjectForm] at h
+    · cases x <;> simp [enumObjectForm] at h
+      rfl
+    · simp [enumObjectForm] at h
+  | _ => simp [enumObjectForm] at h
+
+theorem enumObjectForm_effect (v : Json) (h : enumObjectForm v = true) :
+    effectValueViol v = some .enumObjectForm := by
+  cases v with
+  | obj ms =>
+    rcases ms with _ | ⟨⟨k, x⟩, _ | _⟩
+    · simp [enumObjectForm] at h
+    · cases x <;> simp [enumObjectForm] at h
+      rfl
+    · simp [enumObjectForm] at h
+  | _ => simp [enumObjectForm] at h
 
 theorem rule_must {ρ : Type} (a b : Bytes) (read : Bytes × Json → Option ρ)
     (mk : Bytes → WildcardOneOrMore Bytes → ρ) (hread : ∀ kv, read kv = (woomOfJson kv.2).map (mk kv.1))
